@@ -119,7 +119,7 @@ func mutateXML(r *rng.R, x string) (string, string) {
 		locs := re.FindAllStringIndex(x, -1)
 		if len(locs) > 0 {
 			l := locs[r.Intn(len(locs))]
-			name := x[l[0]:strings.Index(x[l[0]:], "=")+l[0]]
+			name := x[l[0] : strings.Index(x[l[0]:], "=")+l[0]]
 			v := []string{"", "abc", "-1", "99999999999999999999", "0", "1e9", " ", " "}[r.Intn(8)]
 			if r.Chance(1, 4) {
 				return x[:l[0]] + x[l[1]:], "strip-attribute"
@@ -351,7 +351,10 @@ func postOpen(res *core.Result, d *document.Document, r *rng.R, workDir string) 
 		})
 	}
 	step("AddParagraph", func() { d.AddParagraph("appended").SetAlignment(document.AlignCenter) })
-	step("AddHeader", func() { d.AddHeader(document.HeaderFooterTypeDefault, "h"); d.AddFooterWithPageNumber(document.HeaderFooterTypeFirst, "f", true) })
+	step("AddHeader", func() {
+		d.AddHeader(document.HeaderFooterTypeDefault, "h")
+		d.AddFooterWithPageNumber(document.HeaderFooterTypeFirst, "f", true)
+	})
 	step("SetPageMargins", func() {
 		d.SetPageMargins(10, 10, 10, 10)
 		d.SetPageOrientation(document.OrientationLandscape)
